@@ -142,6 +142,11 @@ pub(super) fn check_cipher(kind: octo_squirrel::codec::aead::CipherKind) -> Resu
     }
 }
 
+/// The credential of a VMess client is a user id in UUID form; anything else is refused at start-up.
+pub(super) fn check_id(password: &str) -> Result<()> {
+    octo_squirrel::protocol::vmess::id::from_password(password).map(|_| ()).map_err(|e| anyhow!("the vmess user id is not a UUID: {e}"))
+}
+
 pub(super) mod tcp {
     use octo_squirrel::codec::aead::CipherKind;
     use octo_squirrel::config::ServerConfig;
@@ -155,6 +160,7 @@ pub(super) mod tcp {
 
     pub fn new_context(config: &ServerConfig<SslConfig>) -> anyhow::Result<(CipherKind, String)> {
         super::check_cipher(config.cipher)?;
+        super::check_id(&config.password)?;
         Ok((config.cipher, config.password.clone()))
     }
 
